@@ -87,6 +87,29 @@ func init() {
 		config.Parsed.Media.Hook = []string{"verifdump", "%url"}
 		defer func() { config.Parsed.Media.Hook = saved }()
 		op["context"] = config.Parsed.Network.Context
+		/* feeds of this op (the configured map is replaced for the duration of the op) */
+		savedFeeds := config.Parsed.Feeds
+		feeds := map[string][]string{}
+		feedsOut := []any{}
+		if fm, ok := op["feeds"].(map[string]any); ok {
+			for name, raw := range fm {
+				inputs := []string{}
+				for _, u := range raw.([]any) {
+					inputs = append(inputs, substitute(u.(string), sm.hosts, opid))
+				}
+				feeds[name] = inputs
+				feedsOut = append(feedsOut, []any{name, toAnyList(inputs)})
+				for _, u := range inputs {
+					if pu, err := url.Parse(u); err == nil {
+						op["urltable"].(map[string]any)[u] = urlRecord(pu)
+						op["urltable"].(map[string]any)[pu.String()] = urlRecord(pu)
+					}
+				}
+			}
+		}
+		config.Parsed.Feeds = feeds
+		defer func() { config.Parsed.Feeds = savedFeeds }()
+		op["feeds_sub"] = feedsOut
 		width, height := I(op, "width"), I(op, "height")
 		var fm sync.Mutex
 		frames := []string{}
@@ -152,6 +175,12 @@ func genUI(r *rand.Rand, n int, emit func(Op)) {
 		noteFields := []map[string]any{}
 		mkNote := func(h int, name string, author any, extra map[string]any) string {
 			fields := map[string]any{"type": "Note", "id": g.url(h, name), "mediaType": "text/plain"}
+			switch weighted(r, 6, 1, 1) {
+			case 0:
+				fields["published"] = time.Date(2024, 1, 1+r.Intn(20), r.Intn(24), 0, 0, 0, time.UTC).Format(time.RFC3339)
+			case 1:
+				fields["published"] = "not a time"
+			}
 			fields["content"] = "plain words " + name
 			if len(notes) > 0 && r.Intn(2) == 0 {
 				/* links to other objects of the world, selectable by number */
@@ -223,6 +252,9 @@ func genUI(r *rand.Rand, n int, emit func(Op)) {
 		for a := 0; a < r.Intn(14); a++ {
 			k := r.Intn(len(notes))
 			fields := map[string]any{"type": pick(r, []string{"Create", "Announce", "Like"}), "id": g.url(home, fmt.Sprintf("act%d", a)), "actor": aliceURL, "object": notes[k]}
+			if r.Intn(2) == 0 {
+				fields["published"] = time.Date(2024, 2, 1+r.Intn(20), r.Intn(24), r.Intn(60), 0, 0, time.UTC).Format(time.RFC3339)
+			}
 			if r.Intn(7) == 0 {
 				fields["actor"] = bobURL
 			}
@@ -268,6 +300,36 @@ func genUI(r *rand.Rand, n int, emit func(Op)) {
 				keys = append(keys, pick(r, []string{"\x00", "\xff", "\t", "\n", "Z", "~", "é"}))
 			}
 		}
-		emit(Op{"op": "ui", "routes": g.routes, "start": pick(r, starts), "keys": keys, "width": 20 + r.Intn(100), "height": 2 + r.Intn(50)})
+		/* a second outbox (bob's) and feeds merging outboxes, threads and collections */
+		bacts := []any{}
+		for a := 0; a < r.Intn(6); a++ {
+			k := r.Intn(len(notes))
+			f := map[string]any{"type": "Create", "id": g.url(other, fmt.Sprintf("bact%d", a)), "actor": bobURL, "object": notes[k],
+				"published": time.Date(2024, 2, 1+r.Intn(20), r.Intn(24), r.Intn(60), 0, 0, time.UTC).Format(time.RFC3339)}
+			bacts = append(bacts, g.serve(other, fmt.Sprintf("bact%d", a), f))
+		}
+		boutbox := g.serve(other, "boutbox", map[string]any{"type": "OrderedCollection", "id": g.url(other, "boutbox"), "orderedItems": bacts})
+		bob["outbox"] = boutbox
+		bob["name"] = fmt.Sprintf("bob@H%d", other)
+		for k, rt := range g.routes {
+			if rt.(map[string]any)["path"] == "/{OP}/bob" {
+				g.routes[k] = map[string]any{"h": other, "path": "/{OP}/bob", "resp": "HTTP/1.0 200 OK\r\nContent-Type: application/activity+json\r\n\r\n" + jsonDoc(bob), "fault": ""}
+			}
+		}
+		feeds := map[string]any{
+			"home":  []any{aliceURL, bobURL},
+			"mixed": []any{aliceURL, leaf, outboxURL, "https://{H0}/{OP}/nothing-here", emptyURL},
+			"one":   []any{bobURL},
+			"none":  []any{},
+		}
+		if r.Intn(3) == 0 {
+			keys = append([]any{":feed " + pick(r, []string{"home", "mixed", "one", "none", "unknown"}) + "\r"}, keys...)
+		}
+		for k := range keys {
+			if r.Intn(25) == 0 {
+				keys[k] = ":feed " + pick(r, []string{"home", "mixed", "one", "none", "unknown"}) + "\r"
+			}
+		}
+		emit(Op{"op": "ui", "routes": g.routes, "start": pick(r, starts), "keys": keys, "feeds": feeds, "width": 20 + r.Intn(100), "height": 2 + r.Intn(50)})
 	}
 }
